@@ -3,7 +3,7 @@
 cyclic=False that the unit tests do not instantiate)."""
 import numpy as np
 
-from .. import monitors_models
+from .. import probe, monitors_models
 from ..drive import call
 from ..shard import Workload
 from ._common import arm_light
@@ -81,17 +81,50 @@ def w_model(ctx, rng, idx, param):
         args = (d, w)
     if name == 'rgb_fractal':
         n, L = args
-        args = (rng.random((n, n)), rng.random((n, n)), rng.random((n, n)), L)
+        args = tuple(rgb_matrix(rng, n) for _ in range(3)) + (L,)
     # the same constructor is first asked for a neighbouring (larger / other) parameter set in the same process and then for the
     # enumerated one, and once more afterwards: whatever a constructor remembers between calls must not leak into the next result
     alt = alternative(rng, name, param[1])
     if alt is not None and rng.random() < 0.6:
         call('models.' + name, fn, *alt, prop=P, tags=['model=' + name, 'neighbour_call'])
-    call('models.' + name, fn, *args, prop=P, tags=['model=' + name])
-    if alt is not None and rng.random() < 0.3:
+    ok, res = call('models.' + name, fn, *args, prop=P, tags=['model=' + name])
+    if alt is not None and rng.random() < 0.4:
+        # the caller changes what it was handed (documented in-place operations on the returned trains / arrays) and asks again:
+        # the second answer must be a fresh, correct one
+        if ok:
+            scribble(rng, res)
         call('models.' + name, fn, *args, prop=P, tags=['model=' + name, 'repeated_call'])
     if idx % 37 == 0:
         ctx.sample({'workload': 'models', 'model': name, 'args': [repr(a)[:60] for a in param[1]]})
+
+
+def rgb_matrix(rng, n):
+    """primaries of different dtypes: float64, float32, integer / boolean masks"""
+    k = int(rng.integers(0, 5))
+    if k == 0:
+        return rng.integers(0, 2, size=(n, n))
+    if k == 1:
+        return rng.random((n, n)) < 0.5
+    if k == 2:
+        return rng.random((n, n)).astype(np.float32)
+    return rng.random((n, n))
+
+
+def scribble(rng, res):
+    """in-place changes of a returned object by its new owner"""
+    items = res if isinstance(res, (list, tuple)) else [res]
+    with probe.oracle():
+        for t in items:
+            try:
+                if hasattr(t, 'cores'):
+                    if rng.random() < 0.5:
+                        t.cores[0] = t.cores[0] * 2.0
+                    else:
+                        t.cores[-1][...] = 0
+                elif isinstance(t, np.ndarray) and t.flags.writeable:
+                    t[...] = 0
+            except Exception:
+                pass
 
 
 def alternative(rng, name, a):
